@@ -1,6 +1,7 @@
 package restful
 
 import (
+	"encoding/xml"
 	"errors"
 	"net/http"
 )
@@ -13,6 +14,7 @@ type vFailW struct {
 	hdr      http.Header
 	status   int
 	accepted int
+	chunks   [][]byte
 	calls    int
 	failAt   int
 	failed   bool
@@ -37,12 +39,29 @@ func (w *vFailW) Write(b []byte) (int, error) {
 		return n, vWriteErr
 	}
 	w.accepted += len(b)
+	w.chunks = append(w.chunks, b)
 	return len(b), nil
 }
 
 type vEntity struct {
 	A int
 	B string
+}
+
+// vBadEntity cannot be marshalled (natively: its marshalling methods fail; symbolically: the marshalling stubs
+// fail for exactly this type), so that error paths of the entity writers are the same on both sides
+type vBadEntity struct{}
+
+func (vBadEntity) MarshalJSON() ([]byte, error) { return nil, errors.New("verif: not marshallable") }
+func (vBadEntity) MarshalXML(e *xml.Encoder, start xml.StartElement) error {
+	return errors.New("verif: not marshallable")
+}
+
+func vPickEntity(bad bool) interface{} {
+	if bad {
+		return vBadEntity{}
+	}
+	return vEntity{A: 1, B: "x"}
 }
 
 // H_C15: response status and length bookkeeping match what was actually sent.
@@ -65,7 +84,8 @@ func H_C15(steps, compressed int) {
 	statusSet := 0   // status the calls set (0 none)
 	bodyStarted := false
 	handed := 0      // bytes handed to the writer below Response when a coding sits in between
-	ent := vEntity{A: 1, B: "x"}
+	badEnt := nondetBool("badentity")
+	ent := vPickEntity(badEnt)
 	marshalled := false // marshalling is stubbed symbolically, real natively: nothing to compare then
 	for i := 0; i < steps; i++ {
 		op := nondetChoice("op"+vItoa(i), 12)
@@ -80,7 +100,7 @@ func H_C15(steps, compressed int) {
 			handed += len(p)
 			_, err = resp.Write(p)
 		case 1:
-			setsStatus = 201 + i
+			setsStatus = []int{201, 204, 304, 500}[nondetChoice("st"+vItoa(i), 4)]
 			resp.WriteHeader(setsStatus)
 			writes = false
 		case 2:
@@ -164,5 +184,12 @@ func H_C15(steps, compressed int) {
 			verifAssert(resp.ContentLength() == handed, "C15: ContentLength() is not the number of bytes written before content coding")
 		}
 		cw.Close()
+		// what the underlying writer accepted, counted before the coding: decode it
+		coding := ""
+		if v := w.hdr["Content-Encoding"]; len(v) > 0 {
+			coding = v[0]
+		}
+		payload, ok := verifDecodeBody(w.chunks, coding)
+		verifAssert(ok && len(payload) == resp.ContentLength(), "C15: ContentLength() is not the number of body bytes (before content coding) the underlying writer accepted")
 	}
 }
